@@ -123,8 +123,17 @@ class RefModel:
                 a["err_text"] = rd["text"]
                 code = a["status"]["error"] if a["status"] else 0
                 exposed = code != 0 and old is not UNDEC and old != rd["text"]
-                ch.append(("ac", rd["ac"], exposed if old is not UNDEC else UNDEC,
-                           UNDEC if old is UNDEC else old != rd["text"]))
+                # "the console merely repeats an identical report": identical to the previous
+                # error-information frame of this AC AND to what a client that dropped the text
+                # when the error code went away would still hold; otherwise hidden state may
+                # legitimately have changed (MAY)
+                last = a.get("err_frame", UNDEC)
+                a["err_frame"] = rd["text"]
+                if old is UNDEC or last is UNDEC:
+                    rec = UNDEC
+                else:
+                    rec = last != rd["text"] or old != rd["text"]
+                ch.append(("ac", rd["ac"], exposed if old is not UNDEC else UNDEC, rec))
         return ch
 
     def connected(self):
